@@ -492,7 +492,7 @@ fn read_only(rep: &Report) {
 pub fn run(opts: &Opts) -> i32 {
     let rep = Report::new("C16", "model_checking", opts);
     rep.set("exhaustive", true);
-    rep.set("rule", "every script of exactly d StorageTxn calls over an alphabet of 24 (thorough 38) calls (tasks, operations, base version, working set, sync_complete, is_empty, commit, abandon, close+re-open) with 2 uuids and non-ASCII/empty strings, executed in lock step on InMemoryStorage and SqliteStorage; every return value compared (collections as sorted sets, errors as 'is error'), full observation compared after every transaction end and after close + re-open; the same on databases created by raw SQL under schemas 0.8, 0.9, (0,1), (0,2) with pre-loaded content; every mutator and commit on a read-only handle; non-trivial = scripts that abandon a transaction containing writes after an earlier committed write, or re-open after a committed write");
+    rep.set("rule", "every script of exactly d StorageTxn calls over an alphabet of 24 (thorough 38) calls (tasks, operations, base version, working set, sync_complete, is_empty, commit, abandon, close+re-open) with 2 uuids and non-ASCII/empty strings, executed in lock step on InMemoryStorage and SqliteStorage; every return value compared (collections as sorted sets, errors as 'is error'), full observation compared after every transaction end and after close + re-open; the same after a prefix of 25 operations and 12 working-set entries; the same on databases created by raw SQL under schemas 0.8, 0.9, (0,1), (0,2) with pre-loaded content; every mutator and commit on a read-only handle; non-trivial = scripts that abandon a transaction containing writes after an earlier committed write, or re-open after a committed write");
     rep.assume("contract restrictions: set_working_set_item only with 1 <= index < current length; no call after commit and no second commit in one transaction; error messages are not compared");
     let q = opts.tier == Tier::Quick;
     run_scripts(&rep, "reduced-alphabet", scripts(&alphabet(false), if q { 3 } else { 4 }));
@@ -501,6 +501,18 @@ pub fn run(opts: &Opts) -> i32 {
     let prefix = vec![Call::CreateTask(1), Call::AddOp(0), Call::AddWs(1), Call::AddWs(2), Call::Commit];
     let tails = scripts(&alphabet(false), if q { 2 } else { 3 });
     run_scripts(&rep, "populated-prefix", tails.into_iter().map(|t| prefix.iter().cloned().chain(t).collect()).collect());
+    // many rows: 25 operations and 12 working-set entries pass every single-digit threshold
+    // (row ids / positions with two digits, ordering by text instead of number, page sizes)
+    let mut many = vec![Call::CreateTask(1), Call::CreateTask(2)];
+    for k in 0..25u8 {
+        many.push(Call::AddOp([0, 1, 3, 4, 2][(k % 5) as usize]));
+    }
+    for k in 0..12u8 {
+        many.push(Call::AddWs(1 + k % 2));
+    }
+    many.push(Call::Commit);
+    let tails = scripts(&alphabet(true), if q { 1 } else { 2 });
+    run_scripts(&rep, "many-rows-prefix", tails.into_iter().map(|t| many.iter().cloned().chain(t).chain([Call::Commit, Call::Reopen, Call::Unsynced, Call::GetWs, Call::TaskOps(1)]).collect()).collect());
     legacy(&rep);
     read_only(&rep);
     rep.finish()
